@@ -1,0 +1,114 @@
+//go:build verif
+
+// Contracts for the verifier in /verif (comment-only file; contributes no declarations).
+package queue
+
+// ---------------------------------------------------------------- order of release
+//@ ghost func keyLess(p1 real, t1 int64, p2 real, t2 int64) bool = p1 < p2 || (p1 == p2 && t1 < t2)
+
+//@ func (PriorityQueue).Less
+//@   prop C10
+//@   requires 0 <= i && i < len(pq) && 0 <= j && j < len(pq) && pq[i] != nil && pq[j] != nil
+//@   modifies nothing
+//@   ensures[order] result <==> keyLess(pq[i].priority, pq[i].timestamp, pq[j].priority, pq[j].timestamp)
+//@ lemma[order-irreflexive]
+//@   prop C10
+//@   vars s real, t int64
+//@   ensures[irreflexive] !keyLess(s, t, s, t)
+//@ lemma[order-transitive]
+//@   prop C10
+//@   vars s1 real, t1 int64, s2 real, t2 int64, s3 real, t3 int64
+//@   requires keyLess(s1, t1, s2, t2) && keyLess(s2, t2, s3, t3)
+//@   ensures[transitive] keyLess(s1, t1, s3, t3)
+//@ lemma[order-total]
+//@   prop C10
+//@   vars s1 real, t1 int64, s2 real, t2 int64
+//@   requires !(s1 == s2 && t1 == t2)
+//@   ensures[total] keyLess(s1, t1, s2, t2) || keyLess(s2, t2, s1, t1)
+
+//@ func (*PriorityQueue).Push
+//@   prop C10
+//@   requires pq != nil
+//@   modifies cell(pq)
+//@   ensures[appended] typeis(x, *Request) ==> len(*pq) == old(len(*pq)) + 1 && (*pq)[old(len(*pq))] == x.(*Request) && forall(j, 0, old(len(*pq)), (*pq)[j] == old(*pq)[j])
+//@ func (*PriorityQueue).Pop
+//@   prop C10
+//@   requires pq != nil && len(*pq) >= 1
+//@   modifies cell(pq)
+//@   ensures[last] result == box(old(*pq)[old(len(*pq)) - 1]) && len(*pq) == old(len(*pq)) - 1 && forall(j, 0, len(*pq), (*pq)[j] == old(*pq)[j])
+
+// A request's done channel is unbuffered: a non-blocking send on it succeeds only if the waiter is parked on it.
+//@ func NewRequest
+//@   prop C10
+//@   requires clock != nil
+//@   allocates Request, chan
+//@   modifies now
+//@   ensures[unbuffered-done-channel] result != nil && chcap(result.doneCh) == 0 && result.ID == id && result.priority == priority && !result.gWaiting
+
+// ---------------------------------------------------------------- window quota
+//@ ghost field Request.gWaiting bool                        // pushed on the heap and Enqueue has not returned yet
+//@ ghost field DelayedPriorityQueue.gRel gmap[int64]int64   // releases per window, indexed by the window's end time
+
+
+// container/heap (trusted): Pop returns the minimum under Less, Push inserts
+//@ extern heap.Pop
+//@   modifies allof(DelayedPriorityQueue.queue), now
+//@   ensures typeis(result, *Request) ==> result.(*Request) != nil
+//@ extern heap.Push
+//@   modifies allof(DelayedPriorityQueue.queue), now
+
+//@ monitor DelayedPriorityQueue.mutex
+//@   self q
+//@   protects currentWindowCounter, currentWindowEndTime, requestCounts, queue, gRel
+//@   invariant[quota]    0 <= q.currentWindowCounter && q.currentWindowCounter <= q.strategy.WindowQuota
+//@   invariant[released] q.gRel[q.currentWindowEndTime] == q.currentWindowCounter && forall(g, int64, g > q.currentWindowEndTime ==> q.gRel[g] == 0)
+//@   invariant[bound]    forall(g, int64, q.gRel[g] <= q.strategy.WindowQuota)
+//@   invariant[counts]   q.requestCounts != nil
+//@   rely[map-stays]     q.requestCounts == old(q.requestCounts)
+
+//@ func (*DelayedPriorityQueue).totalQueueCount
+//@   prop C10
+//@   mode seq
+//@   requires dpq.requestCounts != nil
+//@   modifies nothing
+//@   loop 1 modifies nothing
+//@   loop 1 invariant[partial-sum] totalCount == msumset(seen1, dpq.requestCounts)
+//@   ensures[sum] result == msum(dpq.requestCounts)
+
+//@ ghost var gPushed bool            // this Enqueue activation put the request on the heap
+//@ ghost var gTotalAtPush int64      // number of waiters counted when it did
+//@ ghost var gPushTime int64         // time of that moment
+//@ ghost func dpqInv(q *DelayedPriorityQueue) bool = 0 <= q.currentWindowCounter && q.currentWindowCounter <= q.strategy.WindowQuota && q.gRel[q.currentWindowEndTime] == q.currentWindowCounter && forall(g, int64, g > q.currentWindowEndTime ==> q.gRel[g] == 0) && forall(g, int64, q.gRel[g] <= q.strategy.WindowQuota) && q.requestCounts != nil
+
+// admission: fast path while the window has quota, otherwise the size gate, then the wait for a release or the TTL
+//@ func (*DelayedPriorityQueue).Enqueue
+//@   prop C10
+//@   requires dpq.strategy.WindowQuota >= 0 && dpq.strategy.WindowSize > 0 && dpq.clock != nil && req != nil && !req.gWaiting
+//@   on entry do gPushed = false
+//@   on call Unlock 1 before do dpq.gRel[dpq.currentWindowEndTime] = dpq.gRel[dpq.currentWindowEndTime] + 1
+//@   on call Push 1 before do gPushed = true; gTotalAtPush = msum(dpq.requestCounts); gPushTime = now(); req.gWaiting = true
+//@   on return do req.gWaiting = false
+//@   ensures[ok] result1 == nil
+//@   ensures[size-gate] gPushed ==> gTotalAtPush < maxQueueSize
+//@   ensures[rejected-only-if-full-or-ttl-elapsed] !result0 ==> (!gPushed) || now() >= gPushTime + ttl
+//@   ensures[not-waiting-after-return] !req.gWaiting
+
+// release of waiters at a window roll-over: called with the lock held
+//@ func (*DelayedPriorityQueue).processQueueItems
+//@   prop C10
+//@   mode conc
+//@   requires held(dpq.mutex) && dpqInv(dpq) && forall(r, *Request, chcap(r.doneCh) == 0)
+//@   modifies dpq.currentWindowCounter, dpq.gRel, allof(DelayedPriorityQueue.queue), now
+//@   loop 1 modifies dpq.currentWindowCounter, dpq.gRel, allof(DelayedPriorityQueue.queue)
+//@   loop 1 invariant[inv] dpqInv(dpq)
+//@   on call close 1 after do dpq.gRel[dpq.currentWindowEndTime] = dpq.gRel[dpq.currentWindowEndTime] + 1
+//@   select 1 case 1 assumes parkedrecv(req.doneCh) ==> req.gWaiting
+//@   select 1 case 1 asserts[slot-goes-to-a-live-waiter] req.gWaiting
+//@   select 1 default asserts[no-strand] !req.gWaiting
+//@   ensures[inv] dpqInv(dpq)
+//@   ensures[held] held(dpq.mutex)
+
+//@ func (*DelayedPriorityQueue).process
+//@   prop C10
+//@   requires dpq.strategy.WindowQuota >= 0 && dpq.strategy.WindowSize > 0 && dpq.clock != nil && forall(r, *Request, chcap(r.doneCh) == 0)
+//@   loop 1 invariant[cfg] dpq.strategy.WindowQuota >= 0 && dpq.strategy.WindowSize > 0 && dpq.clock != nil && forall(r, *Request, chcap(r.doneCh) == 0)
